@@ -2019,4 +2019,43 @@ theorem C18_legacy_skip_is_break_witness :
   decide
 
 
+/-! ### the hypotheses of the declaration-order theorem are satisfiable -/
+
+theorem rank_of_anc (es : List Entity) (r : String → Nat)
+    (h : ∀ n e p, find es n = some e → p ∈ e.supers → r p < r n) {a n : String} (ha : Anc es a n) : r a < r n := by
+  induction ha with
+  | direct hf hm => exact h _ _ _ hf hm
+  | step hf hm _ ih => exact Nat.lt_trans ih (h _ _ _ hf hm)
+
+/-- two unrelated supertypes with an attribute each below a common root -/
+def forkZ : List Entity :=
+  [⟨"root", [], []⟩, ⟨"l", ["root"], [{ owner := "l", name := "y", kind := .explicit }]⟩,
+   ⟨"r", ["root"], [{ owner := "r", name := "z", kind := .explicit }]⟩, ⟨"d", ["l", "r"], []⟩]
+
+theorem forkZ_rank : ∀ n e p, find forkZ n = some e → p ∈ e.supers → rankD p < rankD n := by
+  intro n e p hf hp
+  obtain ⟨hm, hn⟩ := find_mem_name hf
+  subst hn
+  simp only [forkZ, List.mem_cons, List.not_mem_nil, or_false] at hm
+  rcases hm with rfl | rfl | rfl | rfl <;> simp at hp <;> (try rcases hp with rfl | rfl) <;> (try subst hp) <;> decide
+
+/-- the hypotheses of `C18_ctor_supertypes_in_declaration_order` are satisfiable: `d SUBTYPE OF (l, r)`, `l.y` before `r.z` -/
+example : FirstBefore { owner := "l", name := "y", kind := .explicit } { owner := "r", name := "z", kind := .explicit }
+    (inheritedAttrs forkZ ⟨"d", ["l", "r"], []⟩) := by
+  refine C18_ctor_supertypes_in_declaration_order forkZ (acyclic_of_rank forkZ rankD forkZ_rank) ⟨"d", ["l", "r"], []⟩ [] ["r"] "l" rfl
+    ⟨"l", ⟨"l", ["root"], [{ owner := "l", name := "y", kind := .explicit }]⟩, Or.inl rfl, by decide, by decide⟩ (by decide) ?_
+  intro q hq hc
+  simp at hq; subst hq
+  obtain ⟨anc, ae, hrel, hfa, hz⟩ := hc
+  obtain ⟨hm, hn⟩ := find_mem_name hfa
+  subst hn
+  simp only [forkZ, List.mem_cons, List.not_mem_nil, or_false] at hm
+  rcases hm with rfl | rfl | rfl | rfl <;> simp at hz
+  -- the owner of z is r: r is neither l nor above l
+  rcases hrel with h | h
+  · exact absurd h (by decide)
+  · have := rank_of_anc forkZ rankD forkZ_rank h
+    revert this; decide
+
+
 end StepModel.GenPy
